@@ -151,7 +151,8 @@ impl Swarm {
             _ => [20, 8, 3, 3, 15, 8, 22, 2],
         };
         Swarm {
-            steps: [64usize, 96, 128, 200, 300, 400][rng.below(6)],
+            // mostly short and diverse; now and then a long history (many push/pop cycles)
+            steps: if rng.chance(3) { [800usize, 1200][rng.below(2)] } else { [64usize, 96, 128, 200, 300, 400][rng.below(6)] },
             w,
             form_w,
             fault_pct,
@@ -220,6 +221,17 @@ impl Gen {
                 .iter()
                 .find(|m| m.src == prev.dst && m.dst == prev.src && m.cell == prev.cell && m.kind == rm::K_SIMPLE)
             {
+                return Some(*m);
+            }
+        }
+        if rng.chance(10) {
+            let corner: Vec<RMove> = info
+                .legal
+                .iter()
+                .copied()
+                .filter(|m| matches!(m.dst, 0 | 7 | 56 | 63) && info.pos.sq[m.dst as usize] != 0)
+                .collect();
+            if let Some(m) = rng.pick(&corner) {
                 return Some(*m);
             }
         }
@@ -819,6 +831,19 @@ impl Gen {
     fn pick_pseudo(&mut self, info: &Info) -> Option<RMove> {
         if info.pseudo.is_empty() {
             return None;
+        }
+        // captures on a rook's home square change castling rights in make and must give them
+        // back in un-make: rare in random play, so look for them explicitly
+        if self.rng.chance(15) {
+            let corner: Vec<RMove> = info
+                .pseudo
+                .iter()
+                .copied()
+                .filter(|m| matches!(m.dst, 0 | 7 | 56 | 63) && info.pos.sq[m.dst as usize] != 0)
+                .collect();
+            if let Some(m) = self.rng.pick(&corner) {
+                return Some(*m);
+            }
         }
         // bias toward king-exposing and special moves: the interesting undo paths
         if self.rng.chance(25) {
